@@ -55,6 +55,12 @@ class Gamma(Alpha):
     def run(self):
         self.state = 5
         self.Extra = 6
+class Delta(Alpha, Beta):
+    pass
+class Eps(Beta, Alpha):
+    pass
+class Zeta(Beta, Gamma):
+    pass
 Config = 1
 config = 2
 Handler = 3
@@ -80,6 +86,15 @@ obj.shared
 obj.state
 worker.run
 worker.state
+Delta.shared
+Delta().run
+Delta().state
+Eps.shared
+Eps().run
+Eps().state
+Zeta.shared
+Zeta().run
+Zeta().state
 '''
 USER = '''from cond import pick, codec, last
 import cond
@@ -161,12 +176,16 @@ def run(tier, replay=None):
             open(mfile, 'w').write(MULTI)
             mlines = MULTI.split('\n')
             for i, line in enumerate(mlines, 1):
-                if line in ('obj.run', 'obj.shared', 'obj.state', 'worker.run', 'worker.state'):
+                if line in ('obj.run', 'obj.shared', 'obj.state', 'worker.run', 'worker.state') or line.startswith(('Delta', 'Eps', 'Zeta')) and '.' in line and not line.startswith('class'):
                     requests.append({'id': 'm-loc%d' % i, 'kind': 'location', 'source': MULTI, 'filename': mfile, 'pos': [i, len(line) - 1]})
             nl = len(mlines)          # MULTI ends with a newline: the appended line is line number nl
             for k, tail in enumerate(('obj.x', 'worker.x', 'conf', 'hand')):
                 col = len(tail) - 1 if tail.endswith('.x') else len(tail)
                 requests.append({'id': 'm-asst%d' % k, 'kind': 'assist', 'source': MULTI + tail + '\n', 'filename': mfile, 'pos': [nl, col]})
+            # the members of a plain project module after `from module import `
+            for k, mod in enumerate(('multi', 'cond')):
+                text = 'from %s import ' % mod
+                requests.append({'id': 'p-from%d' % k, 'kind': 'assist', 'source': text, 'filename': ufile, 'pos': [1, len(text)]})
             fnsrc = MULTI.replace('    return retry', '    return retr')
             fl = [i for i, l in enumerate(fnsrc.split('\n'), 1) if l == '    return retr'][0]
             requests.append({'id': 'm-asst-fn', 'kind': 'assist', 'source': fnsrc, 'filename': mfile, 'pos': [fl, 15]})
